@@ -8,7 +8,7 @@ ID=$1; N=$2; SD=/tmp/seed-$ID; P=$SD/patch$N.diff; DEMO=$SD/demo${N}_test.go
 OUT=/verif/seeded/$ID-$N; mkdir -p $OUT
 WT=/tmp/wt-verify-$ID-$N
 [ -f "$P" ] || { echo "no patch $P"; exit 2; }
-PKG=$(python3 -c "import json;print(json.load(open('$SD/meta$N.json')).get('package','').replace('./','').rstrip('/'))" 2>/dev/null)
+PKG=$(python3 -c "import json;print(json.load(open('$SD/meta$N.json')).get('package','').split(' ')[0].replace('./','').rstrip('/'))" 2>/dev/null)
 [ -z "$PKG" ] && PKG=$(grep '^+++ b/' $P | head -1 | sed 's|+++ b/||; s|/[^/]*$||')
 case "$PKG" in pkg/*) ;; *) PKG=$(grep '^+++ b/' $P | head -1 | sed 's|+++ b/||; s|/[^/]*$||');; esac
 TOUCHED=$(grep '^+++ b/' $P | sed 's|+++ b/||; s|/[^/]*$||' | sort -u)
